@@ -140,6 +140,26 @@ func TestProp_C09_lookups(t *testing.T) {
 	})
 }
 
+// C09 with invalid marks in the history: a mark is the only way a whole losing chain disappears
+// within a session, so that the first header of a former side branch can be pruned from memory.
+var weightsC09marks = map[string]int{"extend": 9, "dup": 1, "late": 1, "clean": 4, "reload": 1, "mark": 2, "unmark": 1}
+
+func TestProp_C09_marks(t *testing.T) {
+	col := evid.For("C09", "marks", genDesc+" plus MarkHeaderInvalid / MarkHeaderNotInvalid of held headers (best chain, side branch, first header of a branch, unseen); lookup oracle of the lookups leg on every header not removed by a mark (removed ones: forgotten or remembered with the true height, never in the most-work chain); non-trivial = a mark that removed a side chain followed by a Clean with best-chain history served from storage")
+	rapid.Check(t, func(t *rapid.T) {
+		runHistory(t, col, Focus{ID: "C09", Lookups: true, Marks: true}, weightsC09marks, func(m *M) bool {
+			served := (m.cleans > 0 || m.loads > 0) && m.insts[0].repo.Height() > m.depth
+			if m.marksSide > 0 {
+				m.k.Class("mark_on_side_branch")
+			}
+			if m.marksOnBest > 0 {
+				m.k.Class("mark_on_best_chain")
+			}
+			return (m.marksSide > 0 || m.marksOnBest > 0) && served
+		})
+	})
+}
+
 // ---- C10 -------------------------------------------------------------------------------------
 
 const ruleC10 = genDesc + " with Clean weighted up (single and back-to-back, right after reorgs, with several side branches); oracle: a snapshot (tip triple, Hash(h) for every h, HashHeight and CheckHeader of every accepted header) taken immediately before and after EVERY Clean must be identical; afterwards the history continues under the C08 verdict oracle (side branches must still extend and overtake) and the C09 lookup oracle (pruned best-chain history still retrievable by height and hash); non-trivial = a Clean with >=3 live branches, or a post-Clean overtake by a side branch that existed before the Clean; distinct = hash of the abstract operation list"
